@@ -89,12 +89,8 @@ func (w *fsWriter) Write(p []byte) (n int, err error) {
 		if written == len(p) {
 			return len(p), nil
 		}
-		// Copy p to w.buf
-		writable := len(w.buf) - w.offset
-		if len(p) < writable {
-			writable = len(p)
-		}
-		c := copy(w.buf[w.offset:], p[written:writable])
+		// Copy p to w.buf: copy stops at whichever of the remaining input or the free space is shorter
+		c := copy(w.buf[w.offset:], p[written:])
 		w.offset += c
 		written += c
 		if w.offset == len(w.buf) { // sizes line up, flush and continue
